@@ -126,12 +126,42 @@ class Driver:
     def apply(self, m, op):
         em = self.em
         name = op["name"]
+        # a setter receives a fresh array, or the machine's own array after it was rewritten in place (what an
+        # augmented assignment `m.weights /= s` amounts to: getter, in-place operation on that object, setter)
+        self.n += 1
+        style = self.n % 3
         if name == "SetW":
-            m.weights = vec(op["w"])
+            if style == 0:
+                m.weights = vec(op["w"])
+            elif style == 1:
+                w = m.weights
+                if isinstance(w, np.ndarray) and w.dtype == float and w.flags.writeable:
+                    w[:] = vec(op["w"])
+                    m.weights = w
+                else:
+                    m.weights = vec(op["w"])
+            else:
+                cur = np.asarray(m.weights, dtype=float)
+                if np.all(cur > 0):
+                    m.weights *= vec(op["w"]) / cur
+                    if not allclose(np.asarray(m.weights), vec(op["w"]), 1e-15):
+                        m.weights = vec(op["w"])          # (rounding of the ratio: land exactly on the grid)
+                else:
+                    m.weights = vec(op["w"])
         elif name == "SetM":
-            m.means = arr(op["mu"])
+            if style == 1 and isinstance(m.means, np.ndarray) and m.means.flags.writeable:
+                mu = m.means
+                mu[:] = arr(op["mu"])
+                m.means = mu
+            else:
+                m.means = arr(op["mu"])
         elif name == "SetV":
-            m.variances = arr(op["var"])
+            if style == 1 and isinstance(m.variances, np.ndarray) and m.variances.flags.writeable:
+                v = m.variances
+                v[:] = arr(op["var"])
+                m.variances = v
+            else:
+                m.variances = arr(op["var"])
         elif name == "SetF":
             m.variance_thresholds = floor_value(op["fl"])
         elif name == "MStep":
